@@ -188,8 +188,21 @@ class FourWay(object):
             k = min(len(g[1]), len(m[1]))
             if 5 in m[0] and (6 in g[0] or (g[1][:k] == m[1][:k] and k > 50)):
                 self.dropped["both_diverge"] += 1
+            elif 5 in g[0] and 5 not in m[0] and self.only_step_limit(c, g):
+                self.dropped["glib_step_limit_only"] = self.dropped.get("glib_step_limit_only", 0) + 1
             else:
                 self.unfinished.append((c, i, g, m))
+
+    @staticmethod
+    def only_step_limit(c, g):
+        """The real GLib loop was merely cut by the harness's step limit on a session that needs more handler invocations
+        under GLib than under MainLoop: with ample fuel the GLib model finishes and the implementation's whole trace is a
+        prefix of the model's."""
+        try:
+            m = lib.model_run("gloop", [[200 + 10 * len(g[1]), c[1], c[2]]], timeout=60)[0]
+        except subprocess.TimeoutExpired:
+            return False
+        return 5 not in m[0] and len(g[1]) > 50 and m[1][:len(g[1])] == g[1]
 
 
 def report_pair(chk, c, i, g, mm, mg, stats):
@@ -406,6 +419,14 @@ def gen_app_cases(rng, n):
     return [c[:6] for c in cases if app_case_supported(c)]
 
 
+def app_only_step_limit(c, b):
+    try:
+        m = lib.model_run("gscreen", [[400 + 10 * len(b[1])] + c[1:6]], timeout=60)[0]
+    except subprocess.TimeoutExpired:
+        return False
+    return 5 not in m[0] and len(b[1]) > 50 and m[1][:len(b[1])] == b[1]
+
+
 def run_apps(chk, tier):
     rng = chk.rng
     n = dict(quick=1500, thorough=15000)[tier]
@@ -441,6 +462,10 @@ def run_apps(chk, tier):
             st["glib_unfinished"] += 1; chk.hist("app:discarded:glib-model-no-answer-in-time"); continue
         if 5 in m[0]:
             st["glib_unfinished"] += 1; chk.hist("app:discarded:glib-diverges-in-model-too")
+        elif b[0] != "HANG" and 5 in b[0] and app_only_step_limit(c, b):
+            # under GLib the session needs more handler invocations than the worker's step limit (every InputHandler ever created
+            # is called for every InputReadySignal); the implementation's whole trace is a prefix of the GLib model's
+            st["glib_unfinished"] += 1; chk.hist("app:discarded:glib-step-limit-only(trace-is-prefix-of-model)")
         else:
             again = c20_app.run_alone_glib(c) if b[0] == "HANG" else b
             if again[0] in ("HANG", "ERROR") or 5 in again[0]:
@@ -527,6 +552,10 @@ def replay_app(c):
     print("outcomes MainLoop / GLib:", a[0], b[0])
     if a[0] in ("HANG", "ERROR") or b[0] in ("HANG", "ERROR"):
         return 1
+    if 5 in b[0] and 5 not in a[0] and app_only_step_limit(c, b):
+        print("the GLib implementation was only cut by the worker's step limit: its whole trace (%d events) is a prefix of the GLib "
+              "model's trace; nothing to compare" % len(b[1]))
+        return 0
     c2 = [200 + 8 * max(len(a[1]), len(b[1]))] + c[1:6]
     m1 = lib.model_run("screen", [c2])[0]
     m2 = lib.model_run("gscreen", [c2])[0]
